@@ -42,6 +42,7 @@ func init() {
 		c01LoadIndex(fs, rd)
 		// ---- the chronicler's choice of operation and its handling of a refused entry
 		c01Chronicler(fs)
+		c01ApiValidation(fs)
 		// ---- every path that buffers entries obeys the per-entry flush rule
 		c01BatchPaths(fs, wr, rd)
 	}})
@@ -518,5 +519,46 @@ func c01Chronicler(fs *Facts) {
 		fs.Tri("chronSurfacesError", No, where)
 	} else {
 		fs.Tri("chronSurfacesError", Unknown, where)
+	}
+}
+
+// c01ApiValidation: the gateway refuses keys the format cannot carry before creating a treasure:
+// `func isValidKey(key string) bool { return key != "" && len(key) <= maxKeyLength }` with
+// maxKeyLength = 65535 / math.MaxUint16, used (negated, in an if that returns) by at least the twelve
+// key-creating RPCs.  No such function: `no`.  A function of another shape: `unknown`.
+func c01ApiValidation(fs *Facts) {
+	const gw = "app/server/gateway/gateway.go"
+	f, err := Load(gw)
+	if err != nil {
+		fs.Err("%v", err)
+		fs.Tri("apiValidatesKeys", Unknown, gw)
+		return
+	}
+	fd := f.Func("", "isValidKey")
+	if fd == nil {
+		fs.Tri("apiValidatesKeys", No, gw)
+		return
+	}
+	where := gw + ":" + itoa(f.Line(fd))
+	body := strings.ReplaceAll(f.Str(fd.Body), " ", "")
+	shape := body == `{returnkey!=""&&len(key)<=maxKeyLength}` && (c01ConstIs(f, "maxKeyLength", "65535", "math.MaxUint16"))
+	uses := 0
+	for _, p := range []string{gw, "app/server/gateway/gateway_patch.go"} {
+		g, err := Load(p)
+		if err != nil {
+			continue
+		}
+		ast.Inspect(g.AST, func(x ast.Node) bool {
+			if is, ok := x.(*ast.IfStmt); ok && strings.HasPrefix(strings.ReplaceAll(g.Str(is.Cond), " ", ""), "!isValidKey(") {
+				uses++
+			}
+			return true
+		})
+	}
+	switch {
+	case shape && uses >= 12:
+		fs.Tri("apiValidatesKeys", Yes, where)
+	default:
+		fs.Tri("apiValidatesKeys", Unknown, where)
 	}
 }
